@@ -90,7 +90,7 @@ class QfixedImp(float, Qtype):
 
     def to_amplitudes(self) -> List[float]:
         ampl = [0.0] * 2**self.BIT_SIZE
-        ampl[int(self.to_bin(), 2)] = 1
+        ampl[int(self.to_bin()[::-1], 2)] = 1  # to_bin is little endian
         return ampl
 
     @classmethod
